@@ -7,7 +7,8 @@ CHECKS = {
                 "the while-loop is cut by an inductive invariant (with a progress/termination obligation), the stage-construction loop by a "
                 "family contract; postconditions state exact partition, order, adapter placement and the non-adaptive main stage.",
         "note": "floats in int(c*n) follow a monotone relative-error rounding model (not bit-exact); stager precondition "
-                "n_init_slow_window_iter>=1, multiplier>=1; stage labels are modelled through the symbolic fields of their f-strings (pairwise distinct per window); z3 trusted.",
+                "n_init_slow_window_iter>=1, multiplier>=1; stage labels are modelled through the symbolic fields of their f-strings (pairwise distinct per window); z3 trusted."
+                " Added in round 5: integrality of the running window size / counter is part of the while-loop invariant (non-integer slow_window_multiplier).",
     },
 }
 CHECKS["C20"] = {
@@ -19,7 +20,8 @@ CHECKS["C20"] = {
             "call leaves its domain or overflows, that log/log1p are only evaluated where their condition number is <= 4, that LogRepFloat-LogRepFloat operations stay in "
             "log space, compare like the reals and never skip an accumulation.",
     "note": "libm accuracy/monotonicity model and EXP/LOG axioms are trusted (A3); 'near machine precision' is established as per-branch conditioning, not as a full "
-            "forward error bound; mixed operations with plain numbers are specified over reals only (their plain value must be representable).",
+            "forward error bound; mixed operations with plain numbers are specified over reals only (their plain value must be representable)."
+            ' Added in round 5: math.isclose modelled over the reals.',
 }
 CHECKS["C06"] = {
     "engine": "pyvc",
@@ -32,7 +34,8 @@ CHECKS["C06"] = {
             "schemes 'first-order map composed with its adjoint => order 2' remains a cited theorem (A9); energy error O(eps^2) follows from order 2 by the standard argument (cited); in the trace obligations flows are contract stubs, their exactness and the "
             "gradient consistency of the system's own Hamiltonian are imported from the C07 / C05 obligation sets (run as part of this check); "
             "number of free coefficients bounded (values unbounded); reals for floats."
-            ' Added in rounds 3-4: the implicit sub-step contracts of C02 are imported and the stub system forks on isinstance tests (a fast path keyed on the system class is explored).',
+            ' Added in rounds 3-4: the implicit sub-step contracts of C02 are imported and the stub system forks on isinstance tests (a fast path keyed on the system class is explored).'
+            ' Added in round 5: dh_dpos / dh_dmom gradient obligations and repeated-evaluation / cached-gradient obligations of C05 imported.',
 }
 CHECKS["C02"] = {
     "engine": "pyvc+ncalg",
@@ -44,7 +47,8 @@ CHECKS["C02"] = {
             "negated time, against the initial value); the constrained inner loop is cut by an invariant for any n_inner_step.",
     "note": "component flows are contract stubs assumed to be group actions (C07); uniqueness of implicit solutions (A8); 'up to solver tolerance' not quantified; vectors are abstract "
             "linear combinations (equalities proved coefficient-wise)."
-            ' Added in rounds 3-4 (obligations, not assumptions): group laws of the real component flows (C07, Engine B + D), the cache protocol of states.py incl. key injectivity (C09), sub-step errors propagate unchanged (no silent fallback).',
+            ' Added in rounds 3-4 (obligations, not assumptions): group laws of the real component flows (C07, Engine B + D), the cache protocol of states.py incl. key injectivity (C09), sub-step errors propagate unchanged (no silent fallback).'
+            ' Added in round 5: np.any / np.all of an abstract derivative vector fork both ways independently per call (a sub-step skipped when dh2_dpos happens to vanish at the start of the step).',
 }
 CHECKS["C17"] = {
     "engine": "pyvc",
@@ -55,7 +59,8 @@ CHECKS["C17"] = {
             "maintain ghost batch sums (variance adapter: loop invariant over any number of chains, so the result is independent of split and order; covariance adapter: 1-3 chains), "
             "followed by exact regularisation, inverse metric and momentum refresh under the new metric.",
     "note": "real arithmetic in the contracts; the large-offset clause is covered by a BOUNDED native check (offset 1e8, 9 partitions x 3 settings) only; arrays lifted component-wise (1 resp. 2 generic components); (1/m)^kappa and sqrt uninterpreted; matrix "
-            "constructors and sample_momentum are contract stubs; precondition: every chain contributes >= 1 update.",
+            "constructors and sample_momentum are contract stubs; precondition: every chain contributes >= 1 update."
+            ' Added in round 5: finalize with ANY user reducer (uninterpreted) for lists of 1-3 chains; the momentum refresh must go through system.sample_momentum (matrix stub with sqrt / generator stub with standard_normal so that an inline draw is a decided failure).',
 }
 CHECKS["C04"] = {
     "engine": "pyvc+ncalg",
@@ -66,7 +71,8 @@ CHECKS["C04"] = {
             "the returned position, failures are ConvergenceErrors; the constrained integrator is proved to project after every sub-step for any inner-step count.",
     "note": "convergence (liveness) not claimed; constraint function/Jacobian uninterpreted (A4); dh2_flow_dmom and Gram inverse are contract stubs (C07/C10); the closed-form cotangent "
             "projection identity J M^-1 P p = 0 belongs to the symbolic-array engine (listed in evidence notes when not built); reals for floats."
-            ' Added in rounds 3-4: the closed-form cotangent projection, Gram matrix and projected momentum draw for ALL dimensions n, k and every metric object satisfying the matrix contract (Engine D); cache-key injectivity; the stub system exposes constr so that a skipped retraction is visible.',
+            ' Added in rounds 3-4: the closed-form cotangent projection, Gram matrix and projected momentum draw for ALL dimensions n, k and every metric object satisfying the matrix contract (Engine D); cache-key injectivity; the stub system exposes constr so that a skipped retraction is visible.'
+            ' Added in round 5: the norm contract rejects unset vectors (TypeError is not a ConvergenceError); frame: every projection solve receives the configured tolerances and a step leaves projection_solver_kwargs unchanged.',
 }
 CHECKS["C12"] = {
     "engine": "pyvc",
@@ -77,7 +83,8 @@ CHECKS["C12"] = {
             "lets only IntegratorErrors escape; NaN-induced mici.errors.LinAlgError escaping step() is reported as the known finding D13.",
     "note": "faults are not injected into the solver set-up calls on the previous (already validated) state; transitions' handling of IntegratorError / NaN energies is covered by the "
             "transition contracts when built (see evidence notes); multi-iteration chain continuation rests on C13's loop invariant."
-            ' Added in rounds 3-4: sub-step errors propagate; step() raises only error kinds every transition declares; error flags by class membership incl. subclasses; contract-less loops are unrolled (bounded) and reported undecided.',
+            ' Added in rounds 3-4: sub-step errors propagate; step() raises only error kinds every transition declares; error flags by class membership incl. subclasses; contract-less loops are unrolled (bounded) and reported undecided.'
+            ' Added in round 5: a NaN Hamiltonian of a new tree leaf ends the trajectory as a divergence (returned as NaN or surfaced as LinAlgError).',
 }
 CHECKS["C09"] = {
     "engine": "pyvc + frames",
@@ -90,7 +97,8 @@ CHECKS["C09"] = {
             "library function mutates a state array through an alias.",
     "note": "small-model argument (keys only compared for equality); id() injective; user functions pure and returning fresh objects; static analysis tracks reads through "
             "self.<m>(state)/super() calls only."
-            ' Added in rounds 3-4: cache-key injectivity, pickling leaves the live family intact, aliasing / value-comparison predicates of numpy answer both ways, functools.cache stub.',
+            ' Added in rounds 3-4: cache-key injectivity, pickling leaves the live family intact, aliasing / value-comparison predicates of numpy answer both ways, functools.cache stub.'
+            ' Added in round 5: no two states share a variable array (source x copy read-only flags); the library\'s own derivative methods evaluated twice at one state leave the cached gradient intact (Engine B, imported).',
 }
 CHECKS["C18"] = {
     "engine": "pyvc + frames",
@@ -100,7 +108,8 @@ CHECKS["C18"] = {
             "dependants (for every abstract configuration); one leapfrog / BCSS step from a state with a valid gradient entry costs exactly #stages gradients and returns a state with a "
             "valid entry (so n steps cost n(+1)), the value returned alongside the gradient is reused, momentum refresh keeps position-dependent entries.",
     "note": "tree transitions: bound n+2 from a fresh start state is stated, not proved here; metric stub; small-model argument as in C09."
-            ' Added in rounds 3-4: encapsulation frame (only states.py touches the memo tables); a memoised call leaves other entries alone; auxiliary outputs name memoised methods; aliasing predicates fork.',
+            ' Added in rounds 3-4: encapsulation frame (only states.py touches the memo tables); a memoised call leaves other entries alone; auxiliary outputs name memoised methods; aliasing predicates fork.'
+            ' Added in round 5: dict.fromkeys (one shared value object) and itertools.zip_longest modelled; missing members of builtin type stand-ins are UNDECIDED, never an AttributeError of the program.',
 }
 CHECKS["C13"] = {
     "engine": "pyvc",
@@ -112,7 +121,8 @@ CHECKS["C13"] = {
             "equal to n_trace_iter, over the option space (n_process incl. None, trace_warm_up, trace function sets, adapters, memmap).",
     "note": "arrays are ghost row logs (numpy assignment / allocation / open_memmap trusted, A12); memmap<->path pytree conversion is not modelled (stubs); transitions/adapters/trace "
             "functions are contract stubs; multi-process branch only up to the choice of chain function (A14)."
-            ' Added in rounds 3-4: body of _open_new_memmap; parallel collation for every pickup order; BOUNDED native rows-vs-states run with transitions that update their argument in place; loop-carried variables the contract does not describe are unknowns.',
+            ' Added in rounds 3-4: body of _open_new_memmap; parallel collation for every pickup order; BOUNDED native rows-vs-states run with transitions that update their argument in place; loop-carried variables the contract does not describe are unknowns.'
+            ' Added in round 5: trace array dtype holds the traced values exactly (float64, float32, complex, integer, boolean traces); after a stage dropped a chain the survivors keep their own iterators, generators and arrays (or sample_chains raises).',
 }
 CHECKS["C14"] = {
     "engine": "pyvc + frames",
@@ -123,7 +133,8 @@ CHECKS["C14"] = {
             "once with its own arguments, outputs in chain order, and the worker-side generator advance flows back to the parent; no unseeded randomness in the library.",
     "note": "A14 (multiprocessing semantics) and A10 (numpy generators) trusted; 'frame disjointness + A14 => schedule independence' is an informal inference; real OS scheduling is not explored; "
             "known finding D19 (base-generator draws depend on the chain count)."
-            ' Added in rounds 3-4: shared-object frame (no write to self outside __init__) over adapters, transitions and integrators; generators with both jumped and a seed sequence must be derived from the state.',
+            ' Added in rounds 3-4: shared-object frame (no write to self outside __init__) over adapters, transitions and integrators; generators with both jumped and a seed sequence must be derived from the state.'
+            ' Added in round 5: whole bit-generator state (stream position and buffered half-word) flows back from the workers; RELATIONAL obligation over two executions of the real sample_chains + _get_per_chain_rngs with 2 and 3 chains: the stream of chain c in every stage does not depend on the chain count, and no stream is shared or handed out twice. Harness overrides are no longer cached across paths (DESIGN 13.6).',
 }
 CHECKS["C15"] = {
     "engine": "pyvc",
@@ -133,7 +144,8 @@ CHECKS["C15"] = {
             "belong to the current row only, memmaps are flushed and the iterator context closed; the sequential loop starts no further chain; sample_chains returns immediately and "
             "normally without starting later stages or finalizing adapters on partial chain lists.",
     "note": "worker/parent interrupt propagation through multiprocessing queues under A14 only; a second interrupt during clean-up is out of scope."
-            ' Added in rounds 3-4: the interrupt reaching every worker; a blocking get on an empty progress queue after all workers returned is a termination violation; memmap fill; logger call arguments are evaluated.',
+            ' Added in rounds 3-4: the interrupt reaching every worker; a blocking get on an empty progress queue after all workers returned is a termination violation; memmap fill; logger call arguments are evaluated.'
+            ' Added in round 5: the parent process itself receives the interrupt inside its k-th wait on the progress queue; contract of the real _ProxySequenceProgressBar.__enter__/__exit__ (queues progress tuples only).',
 }
 CHECKS["C10"] = {
     "engine": "symla+ncalg",
@@ -150,7 +162,8 @@ CHECKS["C10"] = {
             "factored, dense definite / square / symmetric, orthogonal, eigendecomposed) on arrays of symbolic dimension; 21 rule-table lemmas type-checked by Lean against Mathlib on every run.",
     "note": "Engine B shapes are fixed (dimension 1-3); Engine D is dimension-generic but abstracts entry-level code (diagonal(), packed-LU rescaling, block split/concatenate, SoftAbs elementwise functions stay with Engine B); "
             "its shims record invertibility / definiteness hypotheses (the library's own preconditions); the correspondence between a rule name in vf/ncalg.py and its Lean statement is by reading; LAPACK shim table, sympy and sign decisions of transcendental expressions by sampling are "
-            "trusted; obligations sympy cannot simplify but that vanish at all sampled points are reported as bounded (numeric-only), never as proved; floats as reals.",
+            "trusted; obligations sympy cannot simplify but that vanish at all sampled points are reported as bounded (numeric-only), never as proved; floats as reals."
+            ' Added in round 5: caller-supplied upper / lower triangular factors of dense definite matrices (Engine D for all n, Engine B); half-supplied eigendecompositions in another column order; SciPy cho_solve modelled in Engine D; evidence lists obligations grouped by subject (full list in evidence_detail/C10.tsv).',
 }
 CHECKS["C11"] = {
     "engine": "symla",
@@ -160,7 +173,8 @@ CHECKS["C11"] = {
             "large-argument branch by path forking, repeated eigenvalues, tuple structure of block matrices) are checked: the reported gradients equal the symbolic derivatives for all real "
             "parameter values at the fixed shapes, have the parameter's shape, vanish outside a triangular parameter's triangle and are symmetric for symmetric-array parameters.",
     "note": "fixed shapes (dimension 2, rank-1 updates, 3 blocks); shim table, sympy differentiation/simplification trusted; reals for floats; numeric-only equalities are reported as bounded."
-            ' Added in rounds 3-4: nested block parameter => nested gradient; upper-factor conventions (cho_solve shim); BOUNDED native stand-ins for dtype independence and gradient freshness (Engine B computes over the reals).',
+            ' Added in rounds 3-4: nested block parameter => nested gradient; upper-factor conventions (cho_solve shim); BOUNDED native stand-ins for dtype independence and gradient freshness (Engine B computes over the reals).'
+            ' Added in round 5: blocks that are equal as matrices but built from different parameters (R, -R); negative factor diagonals; symbolic arrays hash by contents (hash_array stand-in) so that code keyed on matrix equality sees the collisions float arrays produce.',
 }
 CHECKS["C19"] = {
     "engine": "symla + frames",
@@ -184,7 +198,8 @@ CHECKS["C05"] = {
             "atoms, so a discharged obligation holds for every smooth model and every state at dimension 2.",
     "note": "user derivative functions assumed exact (A4); SoftAbs system covered through its metric class (C10/C11) and the generic Riemannian methods; dimension 2, one constraint; "
             "equalities sympy cannot simplify are checked with random concrete model functions and reported as bounded."
-            ' Added in rounds 3-4: kinetic term for all dimensions (Engine D); value-dependent branches fork with multiscale witnesses; metrics given as 2-D arrays / implicitly sized; generic RiemannianMetricSystem with a tuple-structured block metric; static log-space obligation on every log_abs_det; cache protocol imported.',
+            ' Added in rounds 3-4: kinetic term for all dimensions (Engine D); value-dependent branches fork with multiscale witnesses; metrics given as 2-D arrays / implicitly sized; generic RiemannianMetricSystem with a tuple-structured block metric; static log-space obligation on every log_abs_det; cache protocol imported.'
+            ' Added in round 5: every Euclidean-family obligation also on a system whose metric attribute was reassigned after construction (Engine D); a Cholesky factor function with a negative diagonal entry.',
 }
 CHECKS["C07"] = {
     "engine": "symla+ncalg",
@@ -216,7 +231,8 @@ CHECKS["C03"] = {
             "(shared with C02), constrained steps to have the RATTLE form with closed-form cotangent projection (shared with C04).",
     "note": "that generalised leapfrog, implicit midpoint and RATTLE compositions are symplectic is a cited theorem (A9), not proved; for those steps the check adds a BOUNDED native finite-difference Jacobian test (labelled bounded, not counted as proved). "
             "Whole-step traces use one polynomial target family (bounded in the function class). Reals for floats; dimension 2."
-            ' Added in rounds 3-4: composition / inverse closure of the symplectic group as a discharged dimension-generic lemma (Engine D); SoftAbs gradient contracts (C11) and the cache protocol (C09) imported.',
+            ' Added in rounds 3-4: composition / inverse closure of the symplectic group as a discharged dimension-generic lemma (Engine D); SoftAbs gradient contracts (C11) and the cache protocol (C09) imported.'
+            ' Added in round 5: C05\'s dh_dpos / dh_dmom gradient obligations and the repeated-evaluation obligations are imported (the implicit midpoint rule is symplectic for a Hamiltonian vector field).',
 }
 CHECKS["C01"] = {
     "engine": "pyvc",
